@@ -218,8 +218,8 @@ func prefilterFunc(pattern string) func(string) bool {
 		// A literal is the prefix/suffix constraint only when it survived
 		// filterShort (len >= 2), meaning it IS the first/last literal in the
 		// pattern and not replaced by a longer one that appeared elsewhere.
-		usePrefix := hasBeginAnchor(re) && len(origFirst) >= 2
-		useSuffix := hasEndAnchor(re) && len(origLast) >= 2
+		usePrefix := hasBeginAnchor(re) && len(origFirst) >= 2 && anchoredPrefixLiteral(re, caseInsensitive) == origFirst
+		useSuffix := hasEndAnchor(re) && len(origLast) >= 2 && anchoredSuffixLiteral(re, caseInsensitive) == origLast
 		if !usePrefix && !useSuffix {
 			// No anchor: sort longest-first for best early exit.
 			slices.SortFunc(filtered, func(a, b string) int { return len(b) - len(a) })
@@ -1019,6 +1019,67 @@ func hasEndAnchor(re *syntax.Regexp) bool {
 	return false
 }
 
+// anchoredPrefixLiteral returns the literal that every match must begin with right at
+// position 0 of the input, i.e. the literal that immediately follows the \A anchor, or ""
+// when something else (.*, \s*, an alternation, ...) sits between the anchor and the first
+// required literal. A begin anchor alone is not enough to turn "contains" into "has prefix":
+// \A.*select requires "select" anywhere, not at position 0.
+func anchoredPrefixLiteral(re *syntax.Regexp, ci bool) string {
+	switch re.Op {
+	case syntax.OpCapture:
+		return anchoredPrefixLiteral(re.Sub[0], ci)
+	case syntax.OpConcat:
+		if len(re.Sub) >= 2 && re.Sub[0].Op == syntax.OpBeginText {
+			return edgeLiteral(re.Sub[1], ci, false)
+		}
+		if len(re.Sub) > 0 {
+			return anchoredPrefixLiteral(re.Sub[0], ci)
+		}
+	}
+	return ""
+}
+
+// anchoredSuffixLiteral is the mirror of anchoredPrefixLiteral for the \z anchor: the literal
+// every match must end with at the very end of the input, or "".
+func anchoredSuffixLiteral(re *syntax.Regexp, ci bool) string {
+	switch re.Op {
+	case syntax.OpCapture:
+		return anchoredSuffixLiteral(re.Sub[0], ci)
+	case syntax.OpConcat:
+		n := len(re.Sub)
+		if n >= 2 && re.Sub[n-1].Op == syntax.OpEndText {
+			return edgeLiteral(re.Sub[n-2], ci, true)
+		}
+		if n > 0 {
+			return anchoredSuffixLiteral(re.Sub[n-1], ci)
+		}
+	}
+	return ""
+}
+
+// edgeLiteral returns the literal that every match of re starts with (or ends with when
+// last is true), lowercased when ci is set, or "" when re does not guarantee one.
+func edgeLiteral(re *syntax.Regexp, ci bool, last bool) string {
+	switch re.Op {
+	case syntax.OpLiteral:
+		return rawLiteral(re, ci)
+	case syntax.OpCapture, syntax.OpPlus:
+		return edgeLiteral(re.Sub[0], ci, last)
+	case syntax.OpRepeat:
+		if re.Min >= 1 {
+			return edgeLiteral(re.Sub[0], ci, last)
+		}
+	case syntax.OpConcat:
+		if len(re.Sub) > 0 {
+			if last {
+				return edgeLiteral(re.Sub[len(re.Sub)-1], ci, last)
+			}
+			return edgeLiteral(re.Sub[0], ci, last)
+		}
+	}
+	return ""
+}
+
 // hasPrefixFoldASCII reports whether s begins with prefix (ASCII case-insensitive).
 // prefix must already be lowercase.
 func hasPrefixFoldASCII(s, prefix string) bool {
@@ -1124,8 +1185,8 @@ func buildCombinedPF(v combinedRequired, ci bool, re *syntax.Regexp) func(string
 
 	var allPF func(string) bool
 	if len(filteredAll) > 0 {
-		usePrefix := hasBeginAnchor(re) && len(origFirst) >= 2
-		useSuffix := hasEndAnchor(re) && len(origLast) >= 2
+		usePrefix := hasBeginAnchor(re) && len(origFirst) >= 2 && anchoredPrefixLiteral(re, ci) == origFirst
+		useSuffix := hasEndAnchor(re) && len(origLast) >= 2 && anchoredSuffixLiteral(re, ci) == origLast
 		if !usePrefix && !useSuffix {
 			slices.SortFunc(filteredAll, func(a, b string) int { return len(b) - len(a) })
 		}
